@@ -3,6 +3,7 @@ From Coq Require Import List Arith ZArith Bool Orders.
 From MM Require Import lib.ListSet lib.Combi lib.Values model.Heap model.Elig model.SearchParams model.SearchDefs model.Search
   proofs.GroupSpecs proofs.HeapProofs proofs.ExhaustiveProofs proofs.CountProofs.
 Import ListNotations.
+From MM Require Import gen.Gen_HeapDict gen.Gen_Exhaustive proofs.ExhaustiveBridge.
 
 (* the designs offered to the bounded queue are exactly the enumerated (legal, size-admissible)
    pairs that pass the volume, share and budget filters, except those the pruning may skip *)
@@ -60,6 +61,22 @@ Module C03 (K : UsualOrderedTypeFull').
        forall r, In r (exhaustive O HP.kltb (assignments_of es) par shareS optB bud skey) ->
                  K.le (ekey skey d) (ekey skey r)).
   Proof. exact @exhaustive_optimal. Qed.
+
+  (* stated on the Gallina regenerated on this run from exhaustive_search itself (gen/Gen_Exhaustive.v): the scores
+     of the designs the translated code returns are the k best scores offered to the queue, best first *)
+  Theorem C03_translated_exhaustive_search_is_topk :
+    forall (V : Type) (O : vops V) (es : list elig) (par : spar V)
+           (shareS optB : set -> V) (bud : set -> set -> V) (score0 : set -> set -> K.t) (replace_inv : K.t -> V -> K.t),
+      map des_key (dd_get (gen_exhaustive_search O HP.kltb (assignments_of es) par shareS optB bud score0 replace_inv) 0%Z)
+      = Heap.topk HP.kltb (p_n_designs par)
+          (map (ekey (stored_key O par bud score0 replace_inv)) (pushed O es par shareS optB bud)).
+  Proof. intros. rewrite gen_exhaustive_keys. apply exhaustive_topk. Qed.
+  Theorem C03_translated_exhaustive_search_groups_are_the_model :
+    forall (V : Type) (O : vops V) (es : list elig) (par : spar V)
+           (shareS optB : set -> V) (bud : set -> set -> V) (score0 : set -> set -> K.t) (replace_inv : K.t -> V -> K.t),
+      map (@des_groups K.t) (dd_get (gen_exhaustive_search O HP.kltb (assignments_of es) par shareS optB bud score0 replace_inv) 0%Z)
+      = exhaustive O HP.kltb (assignments_of es) par shareS optB bud (stored_key O par bud score0 replace_inv).
+  Proof. intros. apply gen_exhaustive_groups. Qed.
 End C03.
 
 Print Assumptions C03_pushed_are_feasible.
@@ -70,3 +87,5 @@ Print Assumptions C03Z.C03_result_is_topk.
 Print Assumptions C03Z.C03_result_best_first.
 Print Assumptions C03Z.C03_result_size.
 Print Assumptions C03Z.C03_result_optimal.
+Print Assumptions C03Z.C03_translated_exhaustive_search_is_topk.
+Print Assumptions C03Z.C03_translated_exhaustive_search_groups_are_the_model.
